@@ -155,9 +155,11 @@ ExtSync(pre, post) ==
   /\ M!CleanupSyncOp(post) = post
   /\ post.cleanup = pre.cleanup /\ post.apps = pre.apps /\ post.running = pre.running
 ExtFail(pre, ev, args, post, by) ==
-  LET D == IF by # {} THEN CHOOSE d \in by : TRUE ELSE {}
-      nm == [k |-> args[1], i |-> args[2], g |-> args[3]] IN
-  F("ext.cleanup.step", by = {} \/ ExtStep(pre, ev, Expected(pre, ev, args, post, D), post))
+  LET nm == [k |-> args[1], i |-> args[2], g |-> args[3]] IN
+  \* (several defect levels can explain the core fields of a step and still
+  \* differ in the events they predict: one of them has to fit)
+  F("ext.cleanup.step", by = {} \/ \E D \in by :
+                                     ExtStep(pre, ev, Expected(pre, ev, args, post, D), post))
   \cup F("ext.cleanup.invoke", ev = "CleanupCompletes" => ExtInvoke(pre, nm, post))
   \cup F("ext.cleanup.dirs", ev # "CleanupCompletes" => DOMAIN pre.apps \subseteq DOMAIN post.apps)
   \cup F("ext.cleanup.cleaning", ExtCleaning(post))
